@@ -387,3 +387,17 @@ func ghostEntryKey(s *KeyedStateStore, key []byte) []byte { _, d := s.decodeKey(
 //@   atcall NewKeyGroupPriorityQueue: int(arg1) == keyGroupRange.Start + i
 //@   loop 0:
 //@     invariant 0 <= i
+
+// ---- operator life cycle (C15, C02). A deploy - the first one or a redeploy of a surviving
+// process - always starts loading: whatever the status was, it is Loading afterwards, so that the
+// DidLoad at the end of HandleDeploy (Loading -> Ready) succeeds and the job can start.
+//@ type operatorStatus
+//@   ghostfield statusVal uint32
+//@ func operatorStatus.LoadingStarted
+//@   property C15 C02
+//@   modifies s.statusVal
+//@   ensures s.statusVal == uint32(StatusLoading)
+//@ func operatorStatus.IsReady
+//@   property C15 C02
+//@   modifies nothing
+//@   ensures result == (s.statusVal == uint32(StatusReady))
